@@ -19,6 +19,7 @@ import (
 
 	"github.com/alibaba/sentinel-golang/core/base"
 	"github.com/alibaba/sentinel-golang/logging"
+	"github.com/alibaba/sentinel-golang/util/vhook"
 	"github.com/pkg/errors"
 )
 
@@ -53,6 +54,7 @@ func (mb *MetricBucket) Add(event base.MetricEvent, count int64) {
 }
 
 func (mb *MetricBucket) addCount(event base.MetricEvent, count int64) {
+	vhook.Yield(120)
 	atomic.AddInt64(&mb.counter[event], count)
 }
 
@@ -62,37 +64,47 @@ func (mb *MetricBucket) Get(event base.MetricEvent) int64 {
 		logging.Error(errors.Errorf("Unknown metric event: %v", event), "")
 		return 0
 	}
+	vhook.Yield(121)
 	return atomic.LoadInt64(&mb.counter[event])
 }
 
 func (mb *MetricBucket) reset() {
 	for i := 0; i < int(base.MetricEventTotal); i++ {
+		vhook.Yield(111)
 		atomic.StoreInt64(&mb.counter[i], 0)
 	}
+	vhook.Yield(112)
 	atomic.StoreInt64(&mb.minRt, base.DefaultStatisticMaxRt)
+	vhook.Yield(113)
 	atomic.StoreInt32(&mb.maxConcurrency, int32(0))
 }
 
 func (mb *MetricBucket) AddRt(rt int64) {
 	mb.addCount(base.MetricEventRt, rt)
+	vhook.Yield(122)
 	if rt < atomic.LoadInt64(&mb.minRt) {
 		// Might not be accurate here.
+		vhook.Yield(123)
 		atomic.StoreInt64(&mb.minRt, rt)
 	}
 }
 
 func (mb *MetricBucket) MinRt() int64 {
+	vhook.Yield(126)
 	return atomic.LoadInt64(&mb.minRt)
 }
 
 func (mb *MetricBucket) UpdateConcurrency(concurrency int32) {
 	cc := concurrency
+	vhook.Yield(124)
 	if cc > atomic.LoadInt32(&mb.maxConcurrency) {
 		// Might not be accurate here.
+		vhook.Yield(125)
 		atomic.StoreInt32(&mb.maxConcurrency, cc)
 	}
 }
 
 func (mb *MetricBucket) MaxConcurrency() int32 {
+	vhook.Yield(127)
 	return atomic.LoadInt32(&mb.maxConcurrency)
 }
